@@ -972,6 +972,8 @@ val dur_str : dur -> char list tres0
 
 val at_end : char list -> bool
 
+val uncons : char -> char list -> char list option
+
 val take_unit : char -> char list -> char list option * char list
 
 val match_date :
@@ -1031,6 +1033,24 @@ val alt_make :
 val alt_time_basic : char list -> ((char list * char list) * char list) option
 
 val alt_time_ext : char list -> ((char list * char list) * char list) option
+
+val alt_basic : char list -> char list -> dur tres0
+
+val alt_extended : char list -> char list -> dur tres0
+
+val alt_forms : char list -> dur tres0
+
+val eXPECTED_ALT_DATE_ALPHABET : char list
+
+val eXPECTED_ALT_TIME_ALPHABET : char list
+
+val eXPECTED_ALT_ZONE_ALPHABET : char list
+
+val str_mem : char -> char list -> bool
+
+val has_foreign : char list -> char list -> bool
+
+val alt_reject : char list -> dur tres0
 
 val alt_parse : char list -> dur tres0
 
